@@ -29,7 +29,7 @@ func (check) Cases(tier string) int {
 }
 
 func (check) Rule() string {
-	return "pairs (A, B = mutation of A) of trees whose 3 keys repeat at every depth, merged with one of 5 global policies and a pool of one to three Field{Merge,Replace,Append,Prepend}Values options; field paths: concrete paths of 1-3 names/indices (present or absent, addressing objects, lists, list positions, primitives), patterns with ** (**.n, **.n.m, n.**.m, n.**.m.k, **.n.idx, **.n.**.m; ** = any number of components, also none), *.name over a top-level list and name.*.name (these two only alone); combinations of concrete paths and ** patterns incl. pairs whose subtrees nest across a ** (a concrete path below a node a ** pattern addresses, an inner ** next to a root **). List-bearing subtrees are planted at the option paths and at decoys (the same names in the same order at another depth). Special dimensions (modes.go): 12% of the cases turn one or two key names into numeric NAMES (20..2000) in trees, paths and decoys, kept names by EnableNumKeys(true), MaxIdx(0/7/19) or by being above the default MaxIdx; 2% plant a list of 1024-1034 elements and point an option at position 1023..1031 of it (with and without MaxIdx(5000)); 8% give PathSep after the field options or not at all. Call 1 uses the whole pool; in half of the cases one or two further calls reuse the SAME Option values in another selection/order, under another global policy or with swapped operands. Every result is compared with the merge model run with policy(q) = policy of the option whose subtree is the innermost one containing q, else the global one; reused Option values are compared with a twin call made with newly created ones; a third of the cases repeats every call with a destination in which one or two object/list valued settings on, above or below the option paths (also inside one another, also through a chain) are replaced by references to top-level settings, VarExp on: same result as for the literal destination, referenced settings unchanged; plus two model-independent laws (outside the subtrees the options address nothing changes; a path matching nothing changes nothing). Non-trivial = the options change the model result w.r.t. the plain global merge; distinct = distinct (global, options, A, B)."
+	return "pairs (A, B = mutation of A) of trees whose 3 keys repeat at every depth, merged with one of 5 global policies and a pool of one to three Field{Merge,Replace,Append,Prepend}Values options; field paths: concrete paths of 1-3 names/indices (present or absent, addressing objects, lists, list positions, primitives), patterns with ** (**.n, **.n.m, n.**.m, n.**.m.k, **.n.idx, **.n.**.m; ** = any number of components, also none), *.name over a top-level list and name.*.name (these two only alone); combinations of concrete paths and ** patterns incl. pairs whose subtrees nest across a ** (a concrete path below a node a ** pattern addresses, an inner ** next to a root **). List-bearing subtrees are planted at the option paths and at decoys (the same names in the same order at another depth). Special dimensions (modes.go): 12% of the cases turn one or two key names into numeric NAMES (20..2000) in trees, paths and decoys, kept names by EnableNumKeys(true), MaxIdx(0/7/19) or by being above the default MaxIdx; 2% plant a list of 1024-1034 elements and point an option at position 1023..1031 of it (with and without MaxIdx(5000)); 11% give PathSep after the field options, after the first of them or not at all; a fifth of the cases configure a separator other than '.' (/ :: _) at that place while the field paths stay dotted, and a third of the cases spell object-valued settings of the data partly as keys joined with the call's separator (a/b/c: v), at any depth. Call 1 uses the whole pool; in half of the cases one or two further calls reuse the SAME Option values in another selection/order, under another global policy or with swapped operands. Every result is compared with the merge model run with policy(q) = policy of the option whose subtree is the innermost one containing q, else the global one; reused Option values are compared with a twin call made with newly created ones; a third of the cases repeats every call with a destination in which one or two object/list valued settings on, above or below the option paths (also inside one another, also through a chain) are replaced by references to top-level settings, VarExp on: same result as for the literal destination, referenced settings unchanged; plus two model-independent laws (outside the subtrees the options address nothing changes; a path matching nothing changes nothing). Non-trivial = the options change the model result w.r.t. the plain global merge; distinct = distinct (global, options, A, B)."
 }
 
 func (check) Assumptions() []string {
@@ -40,7 +40,8 @@ func (check) Assumptions() []string {
 		"the statement names one wildcard, '**' (any number of path components, also none): patterns with '**' in front, in the middle or twice are generated alone and in combination; a trailing '**' is not generated (nothing says whether a.** differs from a)",
 		"the single-level wildcard '*' is not named by the statement: *.name and name.*.name are generated only alone (they behave like the documentation's examples); what '*' means next to other options, next to position options, below '**' or twice in one call is not claimed",
 		"combinations are generated only where the statement settles them: where subtrees nest the innermost decides; which of two options wins whose subtrees START at the same node is open, so two options never name the same path and a ** pattern is combined with another path only if their last components differ",
-		"field names are dot notation (statement: 'a dotted field path', documentation of the options): the effect does not depend on PathSep(\".\") standing in front of the field options or being given at all (pathSepPlacementClaimed in modes.go); separators other than '.' and names escaped with EscapePath are not generated",
+		"field names are dot notation (statement: 'a dotted field path', documentation of the options): the effect does not depend on PathSep(\".\") standing in front of the field options or being given at all (pathSepPlacementClaimed in modes.go), nor on which separator PathSep configures for the names of the data: a field path is dotted under PathSep(\"/\") as well, before or after the field options; the keys and field paths of the workload contain none of the separators in use, so a tree means the same under each of them (a key that contains '.' while another separator is configured, and names escaped with EscapePath, are not generated: nothing says whether the dotted field path a.b addresses such a key)",
+		"keys joined with the call's separator inside one input spell the nesting they name (C02/C18's matter, used here only as a spelling of the operands): only object-valued settings are folded, never list positions, and under EnableNumKeys no joined key has a numeric component (there the library reads it as a position, C20's matter)",
 		"a numeric component of a field path addresses the list position of that number or the setting of that NAME, whichever the data holds; numeric names are plain decimals above every list length of the case (no second spelling such as 010 or 0x10, that is C20's matter)",
 		"the statement is about Merge: Field options passed to Unpack into typed targets (structs with pre-filled *Config fields) are not generated; the result of a Merge is read by Unpack into map/slice without field options",
 		"an Option is a value: a Merge call's result depends on the options passed to THAT call only, not on calls the same Option value took part in before",
@@ -407,10 +408,10 @@ func allNames(p []string) bool {
 	return true
 }
 
-func mergeLib(a, b *model.Node, opts []ucfg.Option) (*ucfg.Config, error) {
+func mergeLib(md *modes, a, b *model.Node, opts []ucfg.Option) (*ucfg.Config, error) {
 	c := ucfg.New()
 	for _, t := range []*model.Node{a, b} {
-		if err := c.Merge(t.ToGo(), opts...); err != nil {
+		if err := c.Merge(md.toGo(t), opts...); err != nil {
 			return nil, err
 		}
 	}
@@ -651,9 +652,13 @@ func (check) Run(seed int64, tier string, idx int, verbose bool) harness.Result 
 		return md.options(gopts, fieldOpts)
 	}
 	// lib merges x then y with opts and returns the canonical result.
+	var libMd func(m *modes, x, y *model.Node, opts []ucfg.Option, d string) (got string, ok bool)
 	lib := func(x, y *model.Node, opts []ucfg.Option, d string) (got string, ok bool) {
+		return libMd(md, x, y, opts, d)
+	}
+	libMd = func(md *modes, x, y *model.Node, opts []ucfg.Option, d string) (got string, ok bool) {
 		panicked, pv, where := harness.Safe(func() {
-			c, err := mergeLib(x, y, opts)
+			c, err := mergeLib(md, x, y, opts)
 			res.Eval(2)
 			if err != nil {
 				res.Violate("merge-error", "Merge returned %v; %s", err, d)
@@ -717,7 +722,7 @@ func (check) Run(seed int64, tier string, idx int, verbose bool) harness.Result 
 			panicked, pv, where := harness.Safe(func() {
 				var problem string
 				var err error
-				got, problem, err = mergeLibRef(aRef, yRef, sites, mkOpts(globals[gl].opts, fieldOpts))
+				got, problem, err = mergeLibRef(md, aRef, yRef, sites, mkOpts(globals[gl].opts, fieldOpts))
 				res.Eval(4)
 				if err != nil {
 					res.Violate("error-with-destination-reference", "%v; %s", err, d)
@@ -771,7 +776,23 @@ func (check) Run(seed int64, tier string, idx int, verbose bool) harness.Result 
 		if got == strict {
 			return false
 		}
-		if md.ps != psFirst && got == mergeModel(x, y, model.Global(gp)).CanonTop() {
+		// is it the separator? The same call, same placement of PathSep, same
+		// spelling of the data, with "." as the separator (differential twin)
+		md.sepDecides = false
+		for i := range fs {
+			if md.afterOtherSep(i) {
+				twin := *md
+				twin.sep = "."
+				g2, ok := libMd(&twin, x, y, twin.options(globals[gl].opts, fresh(fs)), d+" [twin call with PathSep(\".\") at the same place]")
+				md.sepDecides = ok && g2 == strict
+				break
+			}
+		}
+		if md.sepDecides && md.ps == psFirst && got == mergeModel(x, y, model.Global(gp)).CanonTop() {
+			res.Violate("field-option-ignored-when-pathsep-other-than-dot-precedes-it", "the per-field options have no effect at all because PathSep(%q) is given in front of them (their names are dot notation whatever separator the names of the data use): got %s want %s; %s", md.sep, got, strict, d)
+			return true
+		}
+		if (md.ps == psLast || md.ps == psAbsent) && got == mergeModel(x, y, model.Global(gp)).CanonTop() {
 			res.Violate("field-option-ignored-unless-pathsep-precedes-it", "the per-field options have no effect at all because PathSep(\".\") is not given in front of them (their names are dot notation by documentation, a one-component name has no separator at all): got %s want %s; %s", got, strict, d)
 			return true
 		}
@@ -883,7 +904,40 @@ func (check) Run(seed int64, tier string, idx int, verbose bool) harness.Result 
 		}
 		return len(rest) < len(fos) && mergeModel(a, b, strictPolicy(g.p, rest)).CanonTop() != strict
 	}
-	res.SetAdd("pathsep_placement", [...]string{"first", "after the field options", "absent"}[md.ps])
+	res.SetAdd("pathsep_placement", psNames[md.ps])
+	res.SetAdd("pathsep", fmt.Sprintf("%q %s", md.sep, psNames[md.ps]))
+	if md.otherSep() {
+		res.Ev("pathsep_other_than_dot_cases", 1)
+		before := 0
+		for i := range fos {
+			if md.afterOtherSep(i) {
+				before++
+			}
+		}
+		if before > 0 {
+			res.Ev("pathsep_other_than_dot_before_field_options_cases", 1)
+			if decides(func(f fopt) bool {
+				for i := range fos {
+					if md.afterOtherSep(i) && samePath(f.path, fos[i].path) {
+						return true
+					}
+				}
+				return false
+			}) {
+				res.Ev("pathsep_other_than_dot_before_field_options_that_decide", 1)
+			}
+		}
+	}
+	if md.fold {
+		if n := md.foldedKeys(a) + md.foldedKeys(b); n > 0 {
+			res.Ev("folded_key_cases", 1)
+			res.Ev("folded_keys", int64(n))
+			res.SetAdd("folded_key_separator", md.sep)
+			if strict != plain.CanonTop() {
+				res.Ev("folded_key_cases_where_options_decide", 1)
+			}
+		}
+	}
 	if md.ps != psFirst {
 		res.Ev("pathsep_not_first_cases", 1)
 		if strict != plain.CanonTop() {
@@ -1064,7 +1118,7 @@ func (check) Run(seed int64, tier string, idx int, verbose bool) harness.Result 
 		return res.Done()
 	}
 	panicked, pv, where := harness.Safe(func() {
-		cPlain, err := mergeLib(a, b, mkOpts(g.opts, nil))
+		cPlain, err := mergeLib(md, a, b, mkOpts(g.opts, nil))
 		res.Eval(2)
 		if err != nil {
 			return
@@ -1097,7 +1151,7 @@ func (check) Run(seed int64, tier string, idx int, verbose bool) harness.Result 
 			}
 			if names {
 				var mw, mp map[string]interface{}
-				cWith, _ := mergeLib(a, b, mkOpts(g.opts, fresh(fos)))
+				cWith, _ := mergeLib(md, a, b, mkOpts(g.opts, fresh(fos)))
 				if cWith == nil || cWith.Unpack(&mw) != nil || cPlain.Unpack(&mp) != nil {
 					return
 				}
